@@ -619,6 +619,140 @@ fn djb(bytes: &[u8]) -> u32 {
     h as u32
 }
 
+// c17.strbase <version> <format 4|8> <be> <dwo> <index>
+// A unit without DW_AT_str_offsets_base whose name is an indexed string. In a version 5 .dwo the implicit base
+// is the size of the .debug_str_offsets header (initial length + version + padding); otherwise it is 0 (a
+// version <= 4 .dwo has a headerless GNU table). Oracle: Unit::new picks exactly that base and the indexed
+// string resolves to the string an exhaustive scan of the table finds.
+fn run_strbase(t: &[&str]) -> String {
+    use gimli::{Dwarf, DwarfFileType, EndianSlice, RunTimeEndian, SectionId};
+    if t.len() < 6 {
+        return "bad-case".into();
+    }
+    let version = u(t[1]) as u16;
+    let fmt64 = t[2] == "8";
+    let be = t[3] == "1";
+    let dwo = t[4] == "1";
+    let index = u(t[5]) as usize;
+    let endian = if be { RunTimeEndian::Big } else { RunTimeEndian::Little };
+    let w16 = |v: &mut Vec<u8>, x: u16| v.extend_from_slice(&if be { x.to_be_bytes() } else { x.to_le_bytes() });
+    let w32 = |v: &mut Vec<u8>, x: u32| v.extend_from_slice(&if be { x.to_be_bytes() } else { x.to_le_bytes() });
+    let w64 = |v: &mut Vec<u8>, x: u64| v.extend_from_slice(&if be { x.to_be_bytes() } else { x.to_le_bytes() });
+    let word = |v: &mut Vec<u8>, x: u64| if fmt64 { w64(v, x) } else { w32(v, x as u32) };
+    let init_len = |v: &mut Vec<u8>, x: u64| {
+        if fmt64 {
+            w32(v, 0xffff_ffff);
+            w64(v, x);
+        } else {
+            w32(v, x as u32);
+        }
+    };
+    // strings and the offsets table
+    let names = ["s0", "s1x", "s2yy", "s3", "s4zzzz"];
+    let mut strs = Vec::new();
+    let mut offs = Vec::new();
+    strs.extend_from_slice(b"pad\0");
+    for n in names.iter() {
+        offs.push(strs.len() as u64);
+        strs.extend_from_slice(n.as_bytes());
+        strs.push(0);
+    }
+    let headered = version >= 5;
+    let mut table = Vec::new();
+    let mut body = Vec::new();
+    for o in &offs {
+        word(&mut body, *o);
+    }
+    let header_len;
+    if headered {
+        init_len(&mut table, 4 + body.len() as u64);
+        w16(&mut table, 5);
+        w16(&mut table, 0);
+        header_len = table.len();
+        table.extend_from_slice(&body);
+    } else {
+        header_len = 0;
+        table.extend_from_slice(&body);
+    }
+    // abbreviations: code 1, DW_TAG_compile_unit, no children, DW_AT_name in an indexed form
+    let mut abbrev = vec![0x01, 0x11, 0x00, 0x03];
+    if version >= 5 {
+        abbrev.push(0x25); // DW_FORM_strx1
+    } else {
+        abbrev.extend_from_slice(&[0x82, 0x3e]); // DW_FORM_GNU_str_index 0x1f02
+    }
+    abbrev.extend_from_slice(&[0, 0, 0]);
+    // unit
+    let mut unit_body = Vec::new();
+    w16(&mut unit_body, version);
+    if version >= 5 {
+        unit_body.push(0x01); // DW_UT_compile
+        unit_body.push(8);
+        word(&mut unit_body, 0);
+    } else {
+        word(&mut unit_body, 0);
+        unit_body.push(8);
+    }
+    unit_body.push(1);
+    unit_body.push(index as u8);
+    let mut info = Vec::new();
+    init_len(&mut info, unit_body.len() as u64);
+    info.extend_from_slice(&unit_body);
+    let empty: Vec<u8> = Vec::new();
+    let mut dwarf = Dwarf::load(|id| -> Result<_, ()> {
+        Ok(EndianSlice::new(
+            match id {
+                SectionId::DebugInfo => &info[..],
+                SectionId::DebugAbbrev => &abbrev[..],
+                SectionId::DebugStr => &strs[..],
+                SectionId::DebugStrOffsets => &table[..],
+                _ => &empty[..],
+            },
+            endian,
+        ))
+    })
+    .unwrap();
+    dwarf.file_type = if dwo { DwarfFileType::Dwo } else { DwarfFileType::Main };
+    let header = match dwarf.units().next() {
+        Ok(Some(h)) => h,
+        other => return format!("harness-unit-header {:?}", other.err()),
+    };
+    let unit = match dwarf.unit(header) {
+        Ok(x) => x,
+        Err(e) => return format!("strbase-mismatch unit {}", errname(&e)),
+    };
+    let want_base = if dwo && version >= 5 { header_len } else { 0 };
+    if unit.str_offsets_base.0 != want_base {
+        return format!("strbase-mismatch base {} want {}", unit.str_offsets_base.0, want_base);
+    }
+    // the lookup is meaningful when the base really is where the entries start
+    if want_base == header_len {
+        let want = names.get(index).map(|s| s.as_bytes().to_vec());
+        let got = unit.name.as_ref().map(|r| r.slice().to_vec());
+        if index < names.len() && got != want {
+            return format!("strbase-mismatch name {:?} want {:?}", got.map(|v| String::from_utf8_lossy(&v).into_owned()), names.get(index));
+        }
+        let mut cur = unit.entries();
+        if let Ok(Some(e)) = cur.next_dfs() {
+            if let Some(v) = e.attr_value(gimli::DW_AT_name) {
+                match dwarf.attr_string(&unit, v) {
+                    Ok(r) => {
+                        if index < names.len() && Some(r.slice().to_vec()) != want {
+                            return format!("strbase-mismatch attr_string {:?}", String::from_utf8_lossy(r.slice()));
+                        }
+                    }
+                    Err(e) => {
+                        if index < names.len() {
+                            return format!("strbase-mismatch attr_string {}", errname(&e));
+                        }
+                    }
+                }
+            }
+        }
+    }
+    "ok".into()
+}
+
 pub fn run(t: &[&str]) -> String {
     match t[0] {
         "c17.index" => run_index(t),
@@ -655,6 +789,7 @@ pub fn run(t: &[&str]) -> String {
         "c17.aranges" => run_aranges(t),
         "c17.pub" => run_pub(t),
         "c17.indexed" => run_indexed(t),
+        "c17.strbase" => run_strbase(t),
         "c17.djb" => {
             let b = hex(t[1]);
             match std::str::from_utf8(&b) {
